@@ -61,6 +61,7 @@ type config struct {
 	N, T, V int
 	Net     string
 	Amounts []int // ETH
+	DefFile bool  // source "create": the configuration travels in a cluster definition file (--definition-file)
 	Comp    bool
 	Gas     int
 	Fee, Wd []string // 40 hex digits, no 0x
@@ -93,7 +94,7 @@ func parseCfg(s step) config {
 	b, _ := s["comp"].(bool)
 	return config{Src: drv.Str(s["src"]), Art: drv.Str(s["art"]), Ver: drv.Str(s["ver"]), N: drv.Num(s["n"]),
 		T: drv.Num(s["t"]), V: drv.Num(s["v"]), Net: drv.Str(s["net"]), Amounts: ints(s["amounts"]), Comp: b,
-		Gas: drv.Num(s["gas"]), Fee: strs(s["fee"]), Wd: strs(s["wd"]), Seed: drv.Num(s["seed"]), Flaw: drv.Str(s["flaw"]), Msig: drv.Num(s["msig"])}
+		Gas: drv.Num(s["gas"]), Fee: strs(s["fee"]), Wd: strs(s["wd"]), Seed: drv.Num(s["seed"]), Flaw: drv.Str(s["flaw"]), Msig: drv.Num(s["msig"]), DefFile: s["deffile"] == true}
 }
 
 func verNum(v string) int {
@@ -193,8 +194,59 @@ func (r *run) create() {
 	r.emit(ev)
 }
 
+// createFromDefinition: the operator hands `create cluster` a (creator-less, unsigned) cluster definition file that carries the
+// whole configuration, as `create dkg` / the launchpad produce it.
+func (r *run) createFromDefinition() error {
+	c := r.cfg
+	fv, err := eth2util.NetworkToForkVersion(c.Net)
+	if err != nil {
+		return err
+	}
+	t := c.T
+	if t <= 0 {
+		t = (2*c.N + 2) / 3
+	}
+	fee, wd := with0x(c.Fee), with0x(c.Wd)
+	for len(fee) < c.V {
+		fee = append(fee, fee[0])
+	}
+	for len(wd) < c.V {
+		wd = append(wd, wd[0])
+	}
+	for _, l := range [][]string{fee, wd} { // a definition file carries EIP-55 checksummed addresses
+		for i := range l {
+			if l[i], err = eth2util.ChecksumAddress(l[i]); err != nil {
+				return err
+			}
+		}
+	}
+	def, err := cluster.NewDefinition("x", c.V, t, fee[:c.V], wd[:c.V], fv, cluster.Creator{}, make([]cluster.Operator, c.N),
+		c.Amounts, "", uint(c.Gas), c.Comp, rand.New(rand.NewSource(int64(c.Seed))))
+	if err != nil {
+		return err
+	}
+	b, err := json.MarshalIndent(def, "", " ")
+	if err != nil {
+		return err
+	}
+	path := filepath.Join(r.dir, "cluster-definition.json")
+	if err := os.WriteFile(path, b, 0o600); err != nil {
+		return err
+	}
+	root := cmd.New()
+	root.SetArgs([]string{"create", "cluster", "--definition-file=" + path, "--insecure-keys", "--cluster-dir=" + r.dir, "--network=" + c.Net})
+	root.SetOut(io.Discard)
+	root.SetErr(io.Discard)
+	ctx, cancel := context.WithTimeout(context.Background(), 5*time.Minute)
+	defer cancel()
+	return root.ExecuteContext(ctx)
+}
+
 func (r *run) createCluster() error {
 	c := r.cfg
+	if c.DefFile {
+		return r.createFromDefinition()
+	}
 	args := []string{"create", "cluster",
 		fmt.Sprintf("--nodes=%d", c.N), fmt.Sprintf("--num-validators=%d", c.V), "--network=" + c.Net,
 		"--insecure-keys", "--cluster-dir=" + r.dir, "--name=x",
